@@ -112,7 +112,7 @@ def gen_calibration(rng, tier: str, *, islands=(1, 1, 2, 3), fit_ranges: str = "
     region = (rr[-3] - rr[-4]) * (rr[-1] - rr[-2]) * ((rr[1] - rr[0]) if multi else 1)
     if fit_name == "reduced_chi_squared" and region < vec_len + 5:
         fit_name = "sum_of_squared_residuals"
-    algo_type = rng.choice(["sade", "sade", "sga"])
+    algo_type = rng.choice(["sade", "sade", "sga", "nlopt"])
     scn = {
         "detector": det,
         "pipeline": pipeline,
@@ -130,7 +130,9 @@ def gen_calibration(rng, tier: str, *, islands=(1, 1, 2, 3), fit_ranges: str = "
             "weights_file": weights_file,
             "fitness": fit_name,
             "fitness_arguments": {"free_parameters": len(scalars) + vec_len} if fit_name == "reduced_chi_squared" else None,
-            "algorithm": {"type": algo_type, "generations": rng.randint(1, 2), "population_size": rng.choice([7, 8]) if algo_type == "sade" else rng.choice([6, 8])},
+            "algorithm": {"type": algo_type, "generations": rng.randint(1, 2), "population_size": rng.choice([7, 8]) if algo_type == "sade" else rng.choice([6, 8])}
+            if algo_type != "nlopt"
+            else {"type": "nlopt", "generations": 1, "population_size": rng.choice([4, 6]), "nlopt_solver": rng.choice(["neldermead", "sbplx", "cobyla"]), "maxeval": rng.randint(4, 9), "replacement": rng.choice(["best", "worst", "random"]), "nlopt_selection": rng.choice(["best", "worst", "random"])},
             "num_islands": rng.choice(list(islands)),
             "num_evolutions": rng.randint(1, 3),
             "num_best_decisions": rng.choice([None, 0, 2, 3]),
@@ -308,6 +310,19 @@ def build_calibration(scn: dict, files: dict):
 
 
 # ----------------------------------------------------------------------- seams
+FITLOG: list[dict] = []  # one entry per ModelFittingDataTree.fitness call made under calibration_seams
+
+
+def fitness_calls(hist: list[dict], log: list[dict]) -> list[dict]:
+    """FITLOG entries with the probe events of their own thread between entry and exit."""
+    out = []
+    for e in log:
+        if e["end"] is None:
+            continue
+        out.append(dict(e, events=[ev for ev in hist[e["start"] : e["end"]] if ev["thread"] == e["thread"]]))
+    return out
+
+
 class ArchiProxy:
     def __init__(self, real, sim: sched.Sim, n: int):
         object.__setattr__(self, "_real", real)
@@ -360,6 +375,27 @@ def calibration_seams(sim: sched.Sim):
         finally:
             sim.retire(th)
 
+    import pyxel.calibration.fitting_datatree as fd
+
+    saved_fitness = fd.ModelFittingDataTree.fitness
+
+    def fitness(self, decision_vector_1d):
+        # pure recording (no yield point, no draw): which decision vector each evaluation was asked to score, and which slice
+        # of the probe history belongs to it (same simulated thread, between entry and exit)
+        me = sim.me()
+        entry = {"thread": me.key if me is not None else "-", "x": [float(v) for v in np.asarray(decision_vector_1d, dtype=float).ravel()], "start": len(probes.HIST), "end": None, "f": None, "exc": None}
+        FITLOG.append(entry)
+        try:
+            out = saved_fitness(self, decision_vector_1d)
+            entry["f"] = [float(v) for v in np.asarray(out, dtype=float).ravel()]
+            return out
+        except BaseException as exc:
+            entry["exc"] = type(exc).__name__
+            raise
+        finally:
+            entry["end"] = len(probes.HIST)
+
+    fd.ModelFittingDataTree.fitness = fitness
     ad.ThreadPoolExecutor = sched.SimExecutor
     ad.ArchipelagoDataTree._build = build
     ud.DaskIsland.run_evolve = run_evolve
@@ -372,6 +408,7 @@ def calibration_seams(sim: sched.Sim):
     try:
         yield
     finally:
+        fd.ModelFittingDataTree.fitness = saved_fitness
         ad.ThreadPoolExecutor = saved_exec
         ad.ArchipelagoDataTree._build = saved_build
         ud.DaskIsland.run_evolve = saved_evolve
@@ -379,7 +416,7 @@ def calibration_seams(sim: sched.Sim):
             setattr(ad, name, orig)
 
 
-def run_calibration(scn: dict, *, simulate: bool = True, forced=None, compute_simulated: bool = False, reset: bool = True, pre_run=None) -> dict:
+def run_calibration(scn: dict, *, simulate: bool = True, forced=None, compute_simulated: bool = False, reset: bool = True, pre_run=None, rerun: bool = False) -> dict:
     import pyxel
 
     if reset:
@@ -387,6 +424,7 @@ def run_calibration(scn: dict, *, simulate: bool = True, forced=None, compute_si
     else:
         probes.reset()
     rec: dict[str, Any] = {"exc": None, "tree": None, "sim": None}
+    del FITLOG[:]
     with world.Scratch() as scratch:
         files = write_inputs(scn, scratch)
         rec["files"] = {k: v for k, v in files.items() if k.endswith("arrays")}
@@ -431,9 +469,28 @@ def run_calibration(scn: dict, *, simulate: bool = True, forced=None, compute_si
             rec["tb"] = traceback.format_exc(limit=8)
         rec["rng_restored"] = _state_eq(state0, np.random.get_state())
         rec["hist"] = list(probes.HIST)
+        rec["fitlog"] = fitness_calls(rec["hist"], FITLOG)
         if sim is not None:
             rec["rng"] = {"overlap": rs.overlap}
             rec["sim"] = {"digest": sim.digest(), "decisions": list(sim.decisions), "contested": sim.contested, "preemptions": sim.preemptions, "now": sim.now, "stats": dict(sim.stats), "broken": sim.broken}
+        if rerun and simulate and rec["exc"] is None:
+            # history: the same Calibration / detector / pipeline objects are run a second time (under another schedule)
+            probes.reset()
+            del FITLOG[:]
+            r2: dict[str, Any] = {"exc": None, "tree": None}
+            sim2 = sched.Sim(random.Random(sc.get("sim_seed", 0) + 1), policy=sc.get("policy", "random"), workers=sc.get("workers", 4), preempt_p=sc.get("preempt_p", 0.0), pct_d=sc.get("pct_d", 0), expected_foreign=scn["mode"]["num_islands"])
+            try:
+                with calibration_seams(sim2), sim2.running():
+                    r2["tree"] = pyxel.run_mode(mode=cal, detector=det, pipeline=pipe, with_inherited_coords=True)
+            except sched.HarnessError:
+                raise
+            except BaseException as exc:  # noqa: BLE001
+                r2["exc"] = exc
+                r2["tb"] = traceback.format_exc(limit=8)
+            r2["hist"] = list(probes.HIST)
+            r2["fitlog"] = fitness_calls(r2["hist"], FITLOG)
+            r2["sim"] = {"digest": sim2.digest(), "contested": sim2.contested}
+            rec["rerun"] = r2
     return rec
 
 
